@@ -1,4 +1,5 @@
 import EupsModel.Lemmas.RemoveClosure
+import EupsModel.Lemmas.RemoveHead
 import EupsModel.Lemmas.DepsTotal
 /-! C14 — remove deletes exactly what was asked and never something still needed.
 Property theorems only (model: `Model/Remove.lean`, lemmas: `Lemmas/Remove.lean`). -/
@@ -307,6 +308,47 @@ theorem C14_interactive_users_only_requested (sb : SetupBy) (answers : List Ans)
       simp only [inUse, usedBy, Bool.not_eq_false', List.isEmpty_iff, List.filter_eq_nil_iff] at this
       have := this u hu
       simpa using this
+
+/-- the loop on a list that begins with the requested product: whatever it removes, it removes the requested product -/
+theorem destroyLoopI_top_first (force : Bool) (top : Prod) (ps : List Prod) (s : State) (d : Dflt) (answers : List Ans) :
+    (destroyLoopI force top s (top :: ps) d answers).2.2 ≠ [] →
+      top ∈ (destroyLoopI force top s (top :: ps) d answers).2.2 := by
+  unfold destroyLoopI
+  split
+  · simp
+  · simp
+  · simp
+  · split
+    · simp
+    · split
+      · simp
+      · intro _; simp
+
+/-- **Never something still needed, with `-i` too** (tree with the D74 repair; check on, force off): if the command
+removes anything at all, it removes the requested product — and by `C14_interactive_users_only_requested` every user of
+a removed product is that product.  So whatever is answered at the prompts, no product that remains declared is a
+user of a removed one. -/
+theorem C14_interactive_never_still_needed (sb : SetupBy) (answers : List Ans) (hdn : dn ≠ some name) :
+    (removeWithI s (.ok sb) name ver recursive true false dn answers).2.2 ≠ [] →
+      (⟨name, some ver, true⟩ : Prod) ∈ (removeWithI s (.ok sb) name ver recursive true false dn answers).2.2 := by
+  unfold removeWithI
+  simp only [if_true]
+  cases hl : collect s.db (some sb) false dn (name, ver) s.removeFuel name (some ver) recursive [] with
+  | error e => simp
+  | ok r =>
+    obtain ⟨l, sn⟩ := r
+    simp only
+    split
+    · simp
+    · obtain ⟨p, t, hp, rfl⟩ := collect_head _ _ _ _ _ _ _ _ _ _ _ _ hl hdn
+      have : p = ⟨name, some ver, true⟩ := by
+        simp only [Db.find] at hp
+        split at hp <;> simp_all
+      subst this
+      have hu : uniqProds (⟨name, some ver, true⟩ :: t) =
+          ⟨name, some ver, true⟩ :: (uniqProds t).filter (· != ⟨name, some ver, true⟩) := rfl
+      rw [hu]
+      exact destroyLoopI_top_first false _ _ s .y answers
 
 /-- **Negation witness for the pinned tree (D74): with `-i` something still needed could be removed.**  `app 1` requires
 `lib 1`; `eups remove -i -R app 1` with the in-use check on asks about `app 1` first and then about `lib 1` (which passed
